@@ -304,6 +304,32 @@ where
         debug!(?policy, "scheduling policy for execution");
         let is_leader = policy.party == policy.leader;
 
+        // A policy can only be scheduled once. Reject a duplicate schedule before touching any
+        // state: the type check below stops the state machine on an invalid program and
+        // init_channel() replaces the channels of a computation that is already under way.
+        let schedulable = match (&self.state_kind, is_leader) {
+            (PolicyStateKind::Init, _) => true,
+            (PolicyStateKind::ValidateRequested { .. }, false) => true,
+            _ => false,
+        };
+        if !schedulable {
+            let computation_id = policy.computation_id;
+            let state = format!("{:?}", self.state_kind);
+            let err = if is_leader {
+                ScheduleError::InvalidStateLeader {
+                    computation_id,
+                    state,
+                }
+            } else {
+                ScheduleError::InvalidStateFollower {
+                    computation_id,
+                    state,
+                }
+            };
+            ret_err(ret, err);
+            return ControlFlow::Continue(self);
+        }
+
         let typed_program = match garble_lang::check(&policy.program) {
             Ok(prg) => prg,
             Err(err) => {
